@@ -293,6 +293,31 @@ def galerkin_opt(A, b, x0, m, kd=None):
     return {"def": True, "x": x, "rho2": norm2(msub(b, mmul(A, x)))}
 
 
+HOM_C = -3      # spec/MC_Gmres.tla!HC
+
+
+def mscale_int(c, A):
+    out = mk(A["r"], A["c"], A["d"], lambda i, j: cmul((c, 0), A["e"][i][j]))
+    return out if A["d"] == 1 else mnormalize(out)
+
+
+def hom_mirror(A, b, x0, kd, per_m):
+    """What MC_Gmres!ScaleShift evaluates for one case (every m); raises Overflow / AssertionError."""
+    n = A["r"]
+    r0 = msub(b, mmul(A, x0))
+    rs = mscale_int(HOM_C, r0)
+    zero = col([0] * n)
+    kds = kdim(A, msub(rs, mmul(A, zero)))
+    assert kds == kd
+    for m in range(0, n + 3):
+        z = gmres_opt(A, rs, zero, m, kds)
+        o = per_m[m]
+        assert meq(z["x"], mscale_int(HOM_C, msub(o["x"], x0)))
+        _t(HOM_C * HOM_C * o["rho2"][0])
+        assert z["rho2"] == qnorm(HOM_C * HOM_C * o["rho2"][0], o["rho2"][1]) and z["j"] == o["j"]
+    return True
+
+
 def entries_within(A, b):
     return A["d"] <= b and all(abs(x[0]) <= b and abs(x[1]) <= b for row in A["e"] for x in row)
 
@@ -449,9 +474,24 @@ def gmres_cases(tier):
                     dropped += 1
                     continue
                 kd, rho0, per_m = res
+                # homogeneity / shift invariance is checked by TLC (ScaleShift) on the cases replayed with scaled
+                # right-hand sides: the generic one (both initial guesses) and the lowest Krylov dimension
                 cases.append({"id": f"{name}/{rn}/x0={xn}", "mat": name, "A": A, "b": b, "x0": x, "kdim": kd, "n": n,
                               "complex": cplx or not is_real_mat(b), "normal": is_normal(A), "peak": peak,
-                              "mirror": per_m, "rho2_0": rho0, "x0name": xn})
+                              "mirror": per_m, "rho2_0": rho0, "x0name": xn, "hom": False})
+    # homogeneity / shift invariance is checked by TLC (ScaleShift) on the cases that are replayed with scaled right-hand
+    # sides: per matrix the lowest Krylov dimension (x0 = 0) and the last right-hand side of the largest one (both guesses)
+    by_mat = {}
+    for c in cases:
+        by_mat.setdefault(c["mat"], []).append(c)
+    for group in by_mat.values():
+        top = max(c["kdim"] for c in group)
+        zero = [c for c in group if c["x0name"] == "0" and c["kdim"] >= 1]
+        pick = zero[:1] + [c for c in zero if c["kdim"] == top][-1:] + [c for c in group if c["x0name"] == "e1" and c["kdim"] == top][-1:]
+        for c in pick:
+            if not c["hom"]:
+                ok, _ = peak_of(hom_mirror, c["A"], c["b"], c["x0"], c["kdim"], c["mirror"])
+                c["hom"] = bool(ok)
     return cases, dropped
 
 
@@ -563,13 +603,14 @@ def is_normal_int(rows):
 
 
 def render_gmres_catalog(cases):
-    recs = [{"id": c["id"], "kdim": c["kdim"], "wide": bool(c.get("wide", False)), "A": jmat(c["A"]), "b": jmat(c["b"]),
+    recs = [{"id": c["id"], "kdim": c["kdim"], "wide": bool(c.get("wide", False)), "hom": bool(c.get("hom", False)),
+             "A": jmat(c["A"]), "b": jmat(c["b"]),
              "x0": jmat(c["x0"])} for c in cases]
     return "---- MODULE GmresCatalog ----\nEXTENDS Integers, Sequences\nGCases == " + tla.to_tla(recs) + "\n====\n"
 
 
 GMRES_INVARIANTS = ("CatalogOK", "ResidualBound", "Monotone", "ZeroIffExhausted", "PrefixIsKrylovDim", "Certificates",
-                    "RankTestsAgree", "Emit")
+                    "RankTestsAgree", "ScaleShift", "Emit")
 
 
 def _cfg(invs):
